@@ -56,6 +56,7 @@ class Harness:
         self.work = None
         # in every other history the second constructed block has one frame more than the first, so
         # that an item leaking from one block into the other has the wrong length there
+        self.share_ctor = False   # directed histories: always hand the previous constructor's list over again
         self.skew = (seed // 4) % 2 == 1
         self.frames = {}      # slot -> frame count of the block now in it
 
@@ -289,7 +290,7 @@ class Harness:
         fn = None
         if op == "construct":
             prev = getattr(self, "ctor_list", None)
-            if (prev is not None and self.tagc % 2 == 0 and len(prev[0]) == len(lab["labels"]) > 0
+            if (prev is not None and (self.tagc % 2 == 0 or self.share_ctor) and len(prev[0]) == len(lab["labels"]) > 0
                     and prev[1] == lab["labels"] and prev[2] != i and prev[3] == self.base_frames(i)):
                 # the SAME list object is handed to a second constructor: the two blocks hold the same
                 # item objects (the caller's choice) but must not share their containers
@@ -565,10 +566,44 @@ def graph(kind):
     return g["init"], g["adj"], g["mc"]
 
 
-def run_tour(kind, labs, seed):
+def directed(init, adj, rng, n=6):
+    """model paths of the shape: two constructors given the same non-empty item list, then edits of
+    either block (the constructors must each own their container)"""
+    out = []
+    for _ in range(n * 4):
+        if len(out) >= n:
+            break
+        cur, labs, want = init, [], None
+        stage = 0
+        for _step in range(14):
+            outs = adj.get(cur, [])
+            if stage == 0:
+                cand = [(d, l) for d, l in outs if l == "Begin" or (l.startswith("Construct(1,<<") and not l.endswith("<<>>)"))]
+                cand = [c for c in cand if c[1] != "Begin"] or cand
+            elif stage == 1:
+                cand = [(d, l) for d, l in outs if l == "Construct(2," + want]
+            else:
+                cand = [(d, l) for d, l in outs if l.startswith(("Add(", "Remove", "BulkAdd(", "BulkRemove(", "Assign(", "Encode("))]
+            if not cand:
+                break
+            d, l = rng.choice(cand)
+            labs.append(l)
+            cur = d
+            if stage == 0 and l.startswith("Construct(1,"):
+                want = l[len("Construct(1,"):]
+                stage = 1
+            elif stage == 1:
+                stage = 2
+        if stage == 2 and len(labs) > 4:
+            out.append(labs)
+    return out
+
+
+def run_tour(kind, labs, seed, share_ctor=False):
     model = kind
     kind = kind.split("@")[0]
     h = Harness(kind, seed)
+    h.share_ctor = share_ctor
     h.work = common.scratch()
     init = h.world()
     steps = []
@@ -584,7 +619,7 @@ def run_tour(kind, labs, seed):
         if ev is not None:          # (a call that makes no sense on this concrete block is skipped)
             steps.append(ev)
     return dict(kind="EMG0" if (kind == "EMG" and h.nf == 0) else kind, init=init, steps=steps,
-                meta=dict(labels=labs, seed=seed, kind=model))
+                meta=dict(labels=labs, seed=seed, kind=model, share_ctor=share_ctor))
 
 
 def validate(traces):
@@ -641,7 +676,7 @@ def check(prop, tier, seed, replay=None):
     if replay:
         run.is_replay = True
         rp = json.load(open(replay))["replay"]
-        tr = run_tour(rp["kind"], rp["labels"], rp["seed"])
+        tr = run_tour(rp["kind"], rp["labels"], rp["seed"], rp.get("share_ctor", False))
         res, verdict = validate([tr])
         run.add_tlc("TRACE replay", res, exhaustive=False)
         trs = [tr]
@@ -676,6 +711,10 @@ def check(prop, tier, seed, replay=None):
                 for labs in g:
                     k += 1
                     trs.append(run_tour(kind, labs, seed * 7 + k))
+            if prop in ("C20", "C15") and kind_of(kind) in ("FPCal", "Optical"):
+                for labs in directed(init, adj, rng):
+                    k += 1
+                    trs.append(run_tour(kind, labs, seed * 7 + k, share_ctor=True))
         run.cov["graphs"] = graphs
         res, verdict = validate(trs)
         run.cov["tlc_runs"].append(dict(name="TRACE objects", traces=len(trs), **res.summary()))
@@ -698,7 +737,8 @@ def check(prop, tier, seed, replay=None):
             before = tr["steps"][mine[0][0] - 2]["w"] if mine[0][0] > 1 else tr["init"]
             run.violation(f"{mine[0][1]} at step {mine[0][0]} on {tr['kind']}: call {json.dumps(ev['o'])} -> {json.dumps(ev['r'])}; "
                           f"before {json.dumps(before)} after {json.dumps(ev['w'])}",
-                          dict(kind=tr["meta"]["kind"], labels=tr["meta"]["labels"], seed=tr["meta"]["seed"], clauses=cl))
+                          dict(kind=tr["meta"]["kind"], labels=tr["meta"]["labels"], seed=tr["meta"]["seed"],
+                               share_ctor=tr["meta"].get("share_ctor", False), clauses=cl))
     if others:
         run.cov["clauses_of_other_properties"] = others
     return run.finish()
